@@ -123,6 +123,27 @@ struct SubmitSent {
     seen_event: Option<Vec<u32>>,
     event_job: Option<JobId>,
     max_before: Option<u32>,
+    /// the request as sent, without the ids of an array (see `submit_fingerprint`)
+    fingerprint: String,
+}
+
+/// Everything of a submit request that the server has to record unchanged: job description,
+/// resource requests, task descriptions, entries, dependencies. The ids of an array submit are
+/// left out (they are assigned by the server when the request has none; compared separately).
+fn submit_fingerprint(req: &SubmitRequest) -> String {
+    let mut v = serde_json::to_value(&req.submit_desc).unwrap_or_default();
+    if let Some(a) = v
+        .get_mut("task_desc")
+        .and_then(|t| t.get_mut("Array"))
+        .and_then(|a| a.as_object_mut())
+    {
+        a.remove("ids");
+    }
+    format!(
+        "{}|{}",
+        serde_json::to_string(&req.job_desc).unwrap_or_default(),
+        v
+    )
 }
 
 #[derive(Default)]
@@ -224,6 +245,7 @@ impl Monitors {
             seen_event: None,
             event_job: None,
             max_before: None,
+            fingerprint: submit_fingerprint(request),
         });
     }
 
@@ -502,6 +524,19 @@ impl Monitors {
                             .and_then(|v| v.tasks.keys().max().copied());
                         s.seen_event = Some(new_ids.clone());
                         s.event_job = Some(*job_id);
+                        let recorded = submit_fingerprint(&req);
+                        if recorded != s.fingerprint {
+                            obs.alarm(
+                                "C13",
+                                step,
+                                "the submit recorded by the server differs from the request",
+                                format!(
+                                    "job {job_id}: sent {} recorded {}",
+                                    s.fingerprint.chars().take(600).collect::<String>(),
+                                    recorded.chars().take(600).collect::<String>()
+                                ),
+                            );
+                        }
                     }
                     delta.submitted.push((*job_id, new_ids));
                 }
@@ -1216,18 +1251,15 @@ impl Monitors {
                 matches!(&t.state, TaskStateSnap::Running { worker_id, .. } if *worker_id == w.id)
                     && self.prefill_started.contains(&t.id)
             });
-            if has_prefill_started
-                && (0..used.len()).any(|i| used[i] + reserved[i] > total_of(i))
-            {
-                if self.prefill_overcommitted.insert(w.id) {
-                    obs.class("overcommit-by-worker-side-prefill-start");
-                }
-            }
-            if self.prefill_overcommitted.contains(&w.id) {
-                continue;
+            // Only the sum is excused, and only while such a task is running there: the free
+            // amounts the server keeps must stay exact (zero while overbooked).
+            let excused = has_prefill_started
+                && (0..used.len()).any(|i| used[i] + reserved[i] > total_of(i));
+            if excused && self.prefill_overcommitted.insert(w.id) {
+                obs.class("overcommit-by-worker-side-prefill-start");
             }
             for i in 0..used.len() {
-                if used[i] > total_of(i) {
+                if used[i] > total_of(i) && !excused {
                     obs.alarm(
                         "C05",
                         step,
@@ -1245,7 +1277,8 @@ impl Monitors {
             if let Some(free) = &w.free {
                 for i in 0..used.len() {
                     let f = free.get(i).copied().unwrap_or(0);
-                    let expect = total_of(i) as i64 - used[i] as i64 - reserved[i] as i64;
+                    let expect =
+                        (total_of(i) as i64 - used[i] as i64 - reserved[i] as i64).max(if excused { 0 } else { i64::MIN });
                     if f as i64 != expect {
                         obs.alarm(
                             "C05",
